@@ -59,6 +59,10 @@ def alphabet():
                     ops.append(("put", n, u, v, em))
         for em in ("none", "cur", "stale"):
             ops.append(("del", n, em))
+    # add-member without a name (POST): the store picks the name; "a" is a UID that is also the
+    # base of a member name used above
+    for u in UIDS + ["a"]:
+        ops.append(("post", u, 0))
     ops.append(("restart",))
     return ops
 
@@ -232,6 +236,31 @@ def run_history(backend, hist):
                         after = git_state(s)[0]
                         if after != before + (1 if changed else 0):
                             return fail((f"{before + (1 if changed else 0)} commits (one per effective change, C09)", f"{after}"), step)
+                elif is_git and git_state(s)[0] != before:
+                    return fail(("a refused write adds no commit", "commit added"), step)
+            elif op[0] == "post":
+                _, uid, v = op
+                body = ics(uid, v).encode()
+                conflict = any(u == uid for n, (u, e) in M.items())
+                before = git_state(s)[0] if is_git else 0
+                try:
+                    (rn, retag) = s.import_one(None, "text/calendar", [body])
+                    outcome = "ok"
+                except DuplicateUidError:
+                    outcome = "dup"
+                except Exception as e:
+                    return fail(("import_one(None, ...) returns or raises DuplicateUidError", f"{type(e).__name__}: {e}"), step)
+                want = "dup" if conflict else "ok"
+                log.append(f"post uid={uid} -> {outcome}" + (f" as {rn}" if outcome == "ok" else ""))
+                if outcome != want:
+                    return fail((f"import_one(None, uid={uid}) -> {want}", outcome), step)
+                if outcome == "ok":
+                    if rn in M:
+                        return fail((f"an add-member without a name creates a new member (C01: no other member changes)",
+                                     f"it was stored under the existing name {rn}"), step)
+                    M[rn] = (uid, retag)
+                    if is_git and git_state(s)[0] != before + 1:
+                        return fail((f"{before + 1} commits", f"{git_state(s)[0]}"), step)
                 elif is_git and git_state(s)[0] != before:
                     return fail(("a refused write adds no commit", "commit added"), step)
             elif op[0] == "del":
